@@ -22,7 +22,7 @@ BOUND = {"quick": "all 19683 windows; all 576 impulses x 6 polylines x layers 0.
 ASSUMPTIONS = ["PIL truncates fractional pixel coordinates toward zero; all placements keep coordinates positive",
                "the window of the LAST vertex of a polyline is not part of the integrated band (the walk stops before the end point); images are dark there so the convention does not matter in the configuration sweep; the impulse sweep reports it",
                "'equal for all interfaces of a uniformly bright image' is checked without integration (with integration the band size per unit length depends on the direction of the polyline)"]
-REQUIRED_TAGS = {"all": ["windows", "impulses", "integrate", "average", "float_image", "uint8_image", "uniform_image", "rescaled", "repeated_interface", "diagonal", "curved"]}
+REQUIRED_TAGS = {"all": ["windows", "impulses", "integrate", "average", "float_image", "uint8_image", "uniform_image", "rescaled", "repeated_interface", "diagonal", "curved", "zero_intensity_interface"]}
 
 POLYLINES = {
     "horizontal": [(4, 6), (7, 6), (10, 6), (13, 6)],
@@ -88,20 +88,28 @@ def ref_band(pts, layers, rescale, offset):
     return band, length
 
 
-def make_image(kind, size, scale, dark=()):
+def make_image(kind, size, scale, dark=(), blackout=()):
     n = size
     yy, xx = np.mgrid[0:n, 0:n]
     if kind == "uniform":
         a = np.full((n, n), 37.0)
-    elif kind == "uint8":
+    elif kind in ("uint8", "uint8_black_first"):
         a = ((xx * 37 + yy * 91 + (xx * yy) % 17 * 13) % 200 + 20).astype(float)
     else:
         a = 5.0 + 40.0 * np.abs(np.sin(0.37 * xx + 1.3 * yy) + 0.3 * np.cos(0.11 * xx * yy))
     a = a * scale
+    for seg in blackout:
+        # everything within 6 pixels of the (placed) polyline is black: that interface has intensity exactly 0
+        for (x0, y0), (x1, y1) in zip(seg[:-1], seg[1:]):
+            m = int(max(abs(x1 - x0), abs(y1 - y0)) * 2) + 2
+            for t in range(m + 1):
+                x = int(round(x0 + (x1 - x0) * t / m))
+                y = int(round(y0 + (y1 - y0) * t / m))
+                a[max(0, y - 6):y + 7, max(0, x - 6):x + 7] = 0.0
     for (x, y) in dark:
         a[max(0, y - 4):y + 5, max(0, x - 4):x + 5] = 0.0
     from PIL import Image
-    if kind == "uint8":
+    if kind in ("uint8", "uint8_black_first"):
         a = np.round(a)
         if a.max() > 255:
             return None, None
@@ -203,7 +211,7 @@ class Configs(ProductSystem):
 
     def axes(self, base):
         return {"place": [0, 1, 2, 3], "layers": self.layers, "integrate": [False, True], "normalize": [None, "average"],
-                "image": ["float", "uint8", "uniform"], "scale": [1.0, 3.0, 0.25], "list": ["plain", "repeated", "equal_valued", "single"]}
+                "image": ["float", "uint8", "uniform", "uint8_black_first", "float_black_first"], "scale": [1.0, 3.0, 0.25], "list": ["plain", "repeated", "equal_valued", "single"]}
 
     def eval_config(self, base, cfg):
         import forsys.myosin as fm
@@ -220,11 +228,14 @@ class Configs(ProductSystem):
         dark = []
         for p in polys:
             dark.append((int(p[-1][0] * rescale[0] + offset[0]), int(p[-1][1] * rescale[1] + offset[1])))
-        img, arr = make_image(cfg["image"], 96, cfg["scale"], dark if cfg["integrate"] else ())
+        blackout = []
+        if cfg["image"].endswith("black_first") and len(polys) > 1:
+            blackout = [[(px * rescale[0] + offset[0], py * rescale[1] + offset[1]) for px, py in polys[0]]]
+        img, arr = make_image(cfg["image"], 96, cfg["scale"], dark if cfg["integrate"] else (), blackout)
         tags = []
         if img is None:
             return {"viol": [], "tags": ["uint8_overflow_skipped"], "cls": "skip", "outdom": True}
-        tags.append({"float": "float_image", "uint8": "uint8_image", "uniform": "uniform_image"}[cfg["image"]])
+        tags.append({"float": "float_image", "uint8": "uint8_image", "uniform": "uniform_image", "uint8_black_first": "uint8_image", "float_black_first": "float_image"}[cfg["image"]])
         if cfg["integrate"]:
             tags.append("integrate")
         if cfg["normalize"]:
@@ -235,11 +246,14 @@ class Configs(ProductSystem):
             tags.append("repeated_interface")
         res, ex = fsutil.call(fm.get_intensities, edges, img, cfg["integrate"], cfg["normalize"], cfg["layers"], rescale=rescale, offset=offset)
         viol, known = [], []
-        if ex is not None and cfg["normalize"] == "average" and cfg["integrate"]:
+        if ex is not None and cfg["normalize"] == "average":
             raw = []
             for pts_ in [[(v.x, v.y) for v in be.vertices] for be in edges]:
-                band_, len_ = ref_band(pts_, cfg["layers"], rescale, offset)
-                raw.append(sum(arr[y, x] for (x, y) in band_))
+                if cfg["integrate"]:
+                    band_, len_ = ref_band(pts_, cfg["layers"], rescale, offset)
+                    raw.append(sum(arr[y, x] for (x, y) in band_))
+                else:
+                    raw.append(ref_plain(arr, pts_, cfg["layers"], rescale, offset))
             if sum(raw) == 0:
                 return {"viol": [], "tags": tags + ["all_zero_no_verdict"], "cls": "allzero", "outdom": True, "obs": None}
         if ex is not None:
@@ -256,6 +270,8 @@ class Configs(ProductSystem):
                 exp.append(sum(arr[y, x] for (x, y) in band) / length)
             else:
                 exp.append(ref_plain(arr, pts, cfg["layers"], rescale, offset))
+        if any(x == 0 for x in exp) and any(x != 0 for x in exp):
+            tags.append("zero_intensity_interface")
         if cfg["normalize"] == "average":
             m = float(np.mean(exp))
             if m == 0:
@@ -290,7 +306,7 @@ class Configs(ProductSystem):
     def check_pair(self, base, axis, cfg1, r1, cfg2, r2):
         if axis != "scale" or not r1.get("obs") or not r2.get("obs") or r1["obs"]["got"] is None or r2["obs"]["got"] is None:
             return [], []
-        if cfg1["image"] == "uint8":
+        if cfg1["image"].startswith("uint8"):
             return [], []          # 8-bit images are rounded after scaling
         c = cfg2["scale"] / cfg1["scale"]
         if cfg1["normalize"] == "average":
